@@ -79,8 +79,10 @@ def esc1(ctx, c):
         f = repo.method(cls, meth)
         _wrapper(repo, c, f, f.node, callee, "%s.%s" % (cls, meth))
     ts = repo.method("Program", "translate_statements")
+    from ..inline import flatten
+    ts_flat = flatten(repo, ts, depth=2)
     for callee in (".determine_pcr_relative_sizes(", ".set_address(", ".fix_addresses("):
-        _wrapper(repo, c, ts, ts.node, callee, "Program.translate_statements:%s" % callee.strip(".("))
+        _wrapper(repo, c, ts, ts_flat, callee, "Program.translate_statements:%s" % callee.strip(".("))
     # parse phase: operand construction wrapped into ParseError
     pl = repo.method("Statement", "parse_line")
     sites = [n for n in ast.walk(pl.node) if isinstance(n, ast.Call) and U(n.func) == "Operand.create_from_str"]
@@ -259,7 +261,9 @@ def term1(ctx, c):
     repo = ctx.repo
     ts = repo.method("Program", "translate_statements")
     where = repo.loc(ts, ts.node)
-    loops = [n for n in ast.walk(ts.node) if isinstance(n, ast.While)]
+    from ..inline import flatten
+    ts_flat = flatten(repo, ts, depth=2)
+    loops = [n for n in ast.walk(ts_flat) if isinstance(n, ast.While)]
     c.floor("while loops in translate_statements", len(loops), 1)
     from . import rel
     from ..report import Collector
@@ -292,6 +296,8 @@ def term1(ctx, c):
                 c.ok(site, "every unfixed statement is sized on each pass and sizing always fixes it: at most one pass", repo.loc(ts, lp))
             elif has_exit and covers:
                 c.ok(site, "the loop has a no-progress exit", repo.loc(ts, lp))
+            elif not covers:
+                c.undecided(site, "sizing-loop-shape-not-recognised", "", repo.loc(ts, lp))
             else:
                 c.finding(site, "no progress argument",
                           "the sizing loop repeats until every statement is fixed, but determine_pcr_relative_sizes can return without fixing anything and the loop has no no-progress exit: "
@@ -300,8 +306,10 @@ def term1(ctx, c):
             c.undecided(site, "loop-not-recognised", t, repo.loc(ts, lp))
     af = repo.method("Program", "all_sizes_fixed")
     t = U(af.node)
-    good = re.search(r"for (\w+) in self\.statements:\s+if not \1\.fixed_size:\s+return False\s+return True", t) is not None
-    c.check(good, "Program.all_sizes_fixed", "False iff some statement is not fixed", "shape changed", "all_sizes_fixed no longer reports exactly whether some statement is unsized", repo.loc(af, af.node))
+    good = re.search(r"for (\w+) in self\.statements:\s+if not \1\.fixed_size:\s+return False\s+return True", t) is not None or \
+        re.search(r"return all\(\(?(\w+)\.fixed_size for \1 in self\.statements\)?\)", t) is not None or \
+        re.search(r"return not any\(\(?not (\w+)\.fixed_size for \1 in self\.statements\)?\)", t) is not None
+    c.shape(good, "Program.all_sizes_fixed", "False iff some statement is not fixed", "all_sizes_fixed has another shape", repo.loc(af, af.node))
     # TERM-2
     cg = _cg(ctx)
     cyc = cg.cycles_from("Program.process")
